@@ -133,7 +133,7 @@ package journal
 
 //@ axiom global.errSkip: errSkip != nil && errSkip != io.EOF && errSkip != io.ErrUnexpectedEOF
 //@ axiom global.EOF: EOF != nil
-//@ axiom global.ErrUnexpectedEOF: ErrUnexpectedEOF != nil
+//@ axiom global.ErrUnexpectedEOF: ErrUnexpectedEOF != nil && ErrUnexpectedEOF != io.EOF
 
 //@ pred (r *Reader).rwf = 0 <= r.i && r.i <= r.j && r.j <= r.n && r.n <= blockSize && r.err != errSkip
 
@@ -151,7 +151,7 @@ package journal
 
 //@ func (*Reader).corrupt
 //@   props C12 C08
-//@   ensures [strict] (r.strict && !skip) ==> (result != nil && result != errSkip && r.err == result)
+//@   ensures [strict] (r.strict && !skip) ==> (result != nil && result != errSkip && result != io.EOF && r.err == result)
 //@   ensures [tolerant] !(r.strict && !skip) ==> (result == errSkip && r.err == old(r.err))
 //@   modifies r.err
 
@@ -167,6 +167,7 @@ package journal
 //@   ensures [accept-range] result == nil ==> (r.i >= headerSize && r.j == r.i + le16(r.buf, r.i-3) && r.last == (r.buf[r.i-1] == fullChunkType || r.buf[r.i-1] == lastChunkType))
 //@   ensures [skip] result == errSkip ==> (r.i == r.j && r.err == old(r.err))
 //@   ensures [ok-err] result == nil ==> r.err == old(r.err)
+//@   ensures [no-clean-eof-mid-record] !first ==> result != io.EOF
 //@   ensures [err-state] (result != nil && result != errSkip) ==> (r.err == result || (r.err == old(r.err) && result != io.EOF))
 //@   guarantees [roundtrip] validHeader(old(r.buf), old(r.j), old(r.n), first, r.checksum) ==> (result == nil && r.i == old(r.j) + headerSize && r.j == r.i + le16(old(r.buf), old(r.j)+4) && r.n == old(r.n) && (forall k int :: 0 <= k && k < blockSize ==> r.buf[k] == old(r.buf)[k]))
 //@   guarantees [drop-block] (old(r.j) + headerSize <= old(r.n) && result == errSkip && !validHeader(old(r.buf), old(r.j), old(r.n), false, r.checksum)) ==> (r.i == old(r.n) && r.j == old(r.n) && r.n == old(r.n))
@@ -203,6 +204,7 @@ package journal
 //@   ensures [count] 0 <= ret0 && ret0 <= len(p)
 //@   ensures [copied] ret1 == nil ==> (ret0 <= x.r.i && forall k int :: 0 <= k && k < ret0 ==> p[k] == x.r.buf[x.r.i - ret0 + k])
 //@   ensures [skip-is-error] ret1 != errSkip
+//@   ensures [eof-only-at-record-end] (ret1 == io.EOF && old(x.err) == nil && old(x.r.err) == nil) ==> (x.r.last && x.r.i == x.r.j)
 
 //@ func (*singleReader).ReadByte
 //@   props C12
@@ -214,6 +216,7 @@ package journal
 //@   ensures [stale] x.seq != x.r.seq ==> ret1 != nil
 //@   ensures [byte] ret1 == nil ==> (x.r.i >= 1 && ret0 == x.r.buf[x.r.i - 1])
 //@   ensures [skip-is-error] ret1 != errSkip
+//@   ensures [eof-only-at-record-end] (ret1 == io.EOF && old(x.err) == nil && old(x.r.err) == nil) ==> (x.r.last && x.r.i == x.r.j)
 
 // Writer -> reader at chunk level: what fillHeader establishes is a header the reader accepts at the same offset.
 //@ lemma chunk_roundtrip(B []byte, h int, j int, n int, f bool, l bool, wantFirst bool, ck bool)
